@@ -656,3 +656,13 @@ ASSUMPTIONS = [
     "or 18-24 idle cycles at 12 MHz)",
     "12 MHz full-speed UTMI configuration, block-RAM descriptor handler (all descriptors are bytes), no skiplist",
 ]
+
+PARTIAL_COMMON = ("theorems are about the event-level model; the link to the gateware is the event-by-event co-simulation "
+                  "(no cycle-level model of the control endpoint, so no cycle_refines_event lemma); the descriptor handler's "
+                  "answer is abstracted by descriptorPacket and co-simulated only (C09 owns it)")
+PARTIAL = {
+    "C07": PARTIAL_COMMON,
+    "C08": PARTIAL_COMMON + "; CLEAR_FEATURE's halt-clear strobe is not modelled",
+    "C10": PARTIAL_COMMON + "; PING tokens are excluded from unsupported_never_answered (the control endpoint ACKs PING in its OUT "
+           "stages whatever the request); 'no state change' covers address/configuration/handler state, not the halt-clear strobe",
+}
